@@ -461,7 +461,7 @@ def ord5(ctx, pid):
             ctx.bad(cst, e.where(), "root assigned after the batch does not come from the batch trie")
 
 
-@rule("ADOPT", ["C05", "C06", "C01"])
+@rule("ADOPT", ["C05", "C06", "C01", "C07"])
 def adopt(ctx, pid):
     """squash_changes and the reference counts: the batch gets None exactly when the outer trie keeps no counts
     and a copy of them otherwise; after a committed batch the outer trie adopts the batch's counts exactly
@@ -525,7 +525,7 @@ def _derives_from_batch(ctx, f, name, byv):
     return False
 
 
-@rule("AL2", ["C05", "C06", "C01"])
+@rule("AL2", ["C05", "C06", "C01", "C07"])
 def al2(ctx, pid):
     """AL2a: no mutable object of the outer trie is handed to the batch trie.
     AL2b: after the commit the outer trie does not count references again."""
@@ -551,7 +551,7 @@ def al2(ctx, pid):
             continue
         kind, why = _arg_sharing(ctx, f, arg)
         if kind == "shared":
-            if pid in ("C05", "C06", "C01"):
+            if pid in ("C05", "C06", "C01", "C07"):
                 ctx.bad(c, f.loc(arg), "mutable state of the outer trie (`%s`: %s) is passed to the batch trie by reference; an aborted batch cannot be undone"
                         % (ast.unparse(arg), why), witness={"argument": ast.unparse(arg)})
             else:
@@ -609,6 +609,15 @@ def _arg_sharing(ctx, f, arg, depth=0):
                     if k == want:
                         return k, "one of its bindings (`%s`) is %s" % ("; ".join(ast.unparse(b) for b in bs), why)
             return "fresh", "fresh or constant on every binding"
+    if isinstance(arg, ast.BoolOp):
+        # `x and x.copy()` / `x or {}` evaluate to one of their operands: an empty (falsy) container comes out of
+        # `and` as the object itself
+        res = [_arg_sharing(ctx, f, b, depth + 1) for b in arg.values]
+        for want in ("shared", "unknown"):
+            for k, why in res:
+                if k == want:
+                    return k, "`%s` hands out one of its operands; %s" % (ast.unparse(arg)[:50], why)
+        return "fresh", "fresh or constant whichever operand it evaluates to"
     if isinstance(arg, ast.IfExp):
         res = [_arg_sharing(ctx, f, b, depth + 1) for b in (arg.body, arg.orelse)]
         for want in ("shared", "unknown"):
